@@ -119,6 +119,16 @@ claim("C20", "exploration",
       "Both peers share one filesystem; names never contain '/' or NUL.",
       "DESIGN.md §4 C20")
 
+claim("C08", "exploration",
+      "property-based testing (Hypothesis) of request streams with a frame-ledger oracle: generated sync/async/nested "
+      "request mixes with every handler outcome kind from a real client, and raw requests with undecodable arguments and "
+      "arbitrary sequence numbers from a reference peer; ledger decoded by the independent codec",
+      "Every byte written by either side is recorded by the in-memory transport and decoded with the reference codec; the "
+      "oracle is exactly-one-response-per-request with matching sequence numbers, handler-invocation counters, per-request "
+      "tokens at the real client, and a ping after every failing request.",
+      "Release notices (HANDLE_DEL) still in flight when a stream ends are not counted as unanswered; HANDLE_CLOSE excluded.",
+      "DESIGN.md §4 C08")
+
 NOT_YET = "check not built yet in this revision (see DESIGN.md §8 build order)"
 
 
